@@ -50,7 +50,6 @@ impl LexFlags { #[verifier::external_body] pub fn clone(&self) -> (r: LexFlags) 
 pub struct ParsedLex { _x: usize }
 // GrmtoolsSectionParser::new(s, false).parse(): the header and the offset in `s` where it ends
 #[verifier::external_body] pub fn header_parse(s: Str) -> (r: Result<(Header, usize), Vec<LexBuildError>>) ensures r matches Ok(hp) ==> hp.1 <= s.len { unimplemented!() }
-#[verifier::external_body] pub fn header_parse_unwrap(s: Str) -> (r: (Header, usize)) ensures r.1 <= s.len { unimplemented!() }
 #[verifier::external_body] pub fn flags_of(h: &mut Header) -> (r: Result<LexFlags, Vec<LexBuildError>>) { unimplemented!() }
 // LexParser::new_with_lex_flags(src, start, flags): every span the parser makes is an offset
 // into `src`, so `src` has to be the text the user wrote, from its first byte.
@@ -77,7 +76,7 @@ fn new_with_options(s: Str, lex_flags: LexFlags) -> (r: Result<ParsedLex, Vec<Le
 {
     //@probe
     //@body file=lrlex/src/lib/lexer.rs fn=new_with_options
-    //@rule n=1 `GrmtoolsSectionParser::new\(s, false\)\.parse\(\)\.unwrap\(\)` => `header_parse_unwrap(s)`
+    //@rule n=1 `GrmtoolsSectionParser::new\(s, false\)\s*\.parse\(\)\s*\.map_err\(\|mut errs\| errs\.drain\(\.\.\)\.map\(LexBuildError::from\)\.collect::<Vec<_>>\(\)\)\?;` => `header_parse(s)?;`
     //@rule n=1 `LexParser::<LexerTypesT>::new_with_lex_flags\(` => `lexparser_new(`
     //@rule n=* `\bs\[([^\[\]]+?)\.\.\]` => `s.from(\1)`
     //@cut n=1 `\.map\(` =>>
